@@ -608,4 +608,65 @@ theorem centre_in_tile_iff (t : Tile) (ht : t ∈ tiles) (R C : ℤ) :
   unfold InTile
   omega
 
+/-! ### the cache threaded through the loop -/
+
+theorem foldl_stepC (pix : Tile → ℕ → ℕ → ℤ) (latsD lonsD : List ℚ) (r' : Rect) :
+    ∀ (ts : List Tile) (E : Array ℤ) (c d : List ℕ) (E' : Array ℤ),
+      ts.foldlM (elevStep pix latsD lonsD r') E = .ok E' →
+      ts.foldl (elevStepC pix latsD lonsD r') (.ok E, c, d) =
+        (.ok E', (runRequests c (ts.map tileId)).1, d ++ (runRequests c (ts.map tileId)).2) := by
+  intro ts
+  induction ts with
+  | nil =>
+    intro E c d E' h
+    have : E = E' := by
+      have h' : (Except.ok E : Except Err (Array ℤ)) = .ok E' := h
+      exact Except.ok.inj h'
+    simp [runRequests, this]
+  | cons t ts ih =>
+    intro E c d E' h
+    rw [List.foldlM_cons] at h
+    cases hs : elevStep pix latsD lonsD r' E t with
+    | error e =>
+      rw [hs] at h
+      exact absurd h (by intro h'; cases h')
+    | ok E1 =>
+      rw [hs] at h
+      have h1 : ts.foldlM (elevStep pix latsD lonsD r') E1 = .ok E' := h
+      rw [List.foldl_cons]
+      have hstep : elevStepC pix latsD lonsD r' (.ok E, c, d) t =
+          (.ok E1, (getTile c (tileId t)).1,
+            if (getTile c (tileId t)).2 then d ++ [tileId t] else d) := by
+        simp only [elevStepC, hs]
+      rw [hstep, ih E1 _ _ E' h1]
+      simp only [List.map_cons, runRequests]
+      cases hg : (getTile c (tileId t)).2 <;> simp
+
+/-- `elevation` with the cache: same result as `elevation`, and the cache evolves as
+`runRequests` on the names of `get_tiles` of the block -/
+theorem elevationC_spec (cache : List ℕ) (pix : Tile → ℕ → ℕ → ℤ) (r : Rect) (hv : Valid r) :
+    elevationC cache pix r =
+      (elevation pix r,
+        runRequests cache ((getTiles (blockRect (rF r) (rL r) (cF r) (cL r))).map tileId)) := by
+  have s := grids_shape r hv
+  have hg : nativeGrids r = (latsOf (rF r) (rL r), lonsOf (cF r) (cL r)) := nativeGrids_eq r
+  obtain ⟨m1, m2⟩ := min_max_latsOf s.rows_le
+  obtain ⟨m3, m4⟩ := min_max_lonsOf s.cols_le
+  have hts : ∀ t ∈ getTiles (blockRect (rF r) (rL r) (cF r) (cL r)), t ∈ tiles := by
+    intro t ht; unfold getTiles at ht; exact (List.mem_filter.mp ht).1
+  have hnd : (getTiles (blockRect (rF r) (rL r) (cF r) (cL r))).Nodup := by
+    unfold getTiles; exact (List.filter_sublist).nodup tiles_nodup
+  obtain ⟨E', f1, -, -⟩ := foldlM_spec pix _ _ _ _ s.rows_le s.cols_le _ hts hnd
+    (Array.replicate ((latsOf (rF r) (rL r)).length * (lonsOf (cF r) (cL r)).length) 0) (by simp)
+  have he : elevation pix r = .ok (latsOf (rF r) (rL r), lonsOf (cF r) (cL r), E') := by
+    unfold elevation
+    rw [hg]
+    simp only [m1, m2, m3, m4, block_eq, f1]
+  have hc := foldl_stepC pix (latsOf (rF r) (rL r)) (lonsOf (cF r) (cL r))
+    (blockRect (rF r) (rL r) (cF r) (cL r)) _ _ cache [] E' f1
+  rw [he]
+  unfold elevationC
+  rw [hg]
+  simp only [m1, m2, m3, m4, block_eq, hc, List.nil_append]
+
 end Srtm
